@@ -3,13 +3,23 @@
 use super::{util, v, Violation};
 use crate::decode;
 use crate::kernel::Life;
-use crate::run::RunResult;
+use crate::run::{DumpRes, RunResult};
 use crate::scenario::*;
 use std::collections::BTreeMap;
 
 pub fn check(sc: &Scenario, res: &RunResult) -> Vec<Violation> {
     let mut out = Vec::new();
     let Some(opts) = util::dump_opts(sc) else { return out };
+    // A target that nothing happens to (no scheduled event, no injected fault): every thread can be
+    // listed, so the request has to produce a thread list at all; whatever the threads are called.
+    if sc.events.is_empty() && sc.faults.is_empty() {
+        if let Some(d0) = res.dumps.first() {
+            if let DumpRes::Err(e) = &d0.result {
+                out.push(v("C04", "undisturbed-target-not-dumped", format!("nothing happens to the target, yet the request failed and lists no thread: {}", e.chars().take(200).collect::<String>())));
+                return out;
+            }
+        }
+    }
     let Some((d, img)) = util::first_ok(res) else { return out };
     let dec = decode::decode(img);
     let Some(threads) = &dec.threads else {
